@@ -28,6 +28,9 @@ OPTSETS = [
     {"header": ["X-A: 1", "X-B: two words"]}, {"header": {"X-A": "1", "X-None": None, "X-C": "3"}}, {"header": []}, {"header": {}},
     {"connection": "keep-alive, Upgrade"}, {"host": ""}, {"cookie": ""},
     {"origin": "http://o", "subprotocols": ["chat"], "cookie": "k=v", "header": {"Authorization": "Bearer t"}, "connection": "Upgrade"},
+    # the caller supplies the key and/or the version in a header dict: still one of each in the request
+    {"header": {"Sec-WebSocket-Key": "AQIDBAUGBwgJCgsMDQ4PEA==", "X-A": "1"}}, {"header": {"Sec-WebSocket-Version": "13"}},
+    {"header": {"X-B": "2", "Sec-WebSocket-Version": "13", "Sec-WebSocket-Key": "EA8ODQwLCgkIBwYFBAMCAQ=="}},
 ]
 
 
@@ -100,7 +103,13 @@ def judge(T, c, info, parsed, hostspec, pub):
     if not ok:
         return
     keys = vals(hs, "Sec-WebSocket-Key")
-    if len(keys) != 1 or len(keys[0]) != 24 or base64.b64decode(keys[0]) != bytes.fromhex(DRAW):
+    own = o["header"].get("Sec-WebSocket-Key") if isinstance(o.get("header"), dict) else None
+    if own is not None:
+        if keys != [own]:
+            T.fail("spec", pub, f"one Sec-WebSocket-Key, the one the caller supplied ({own})", str(keys), {"site": "handshake", "cls": "key-header"},
+                   what=f"the caller's header dict supplies Sec-WebSocket-Key and the request carries {keys}")
+            return
+    elif len(keys) != 1 or len(keys[0]) != 24 or base64.b64decode(keys[0]) != bytes.fromhex(DRAW):
         T.fail("spec", pub, "one Sec-WebSocket-Key = base64 of the 16 random bytes drawn", str(keys), {"site": "handshake", "cls": "key-header"})
         return
     if o.get("suppress_origin"):
@@ -257,7 +266,7 @@ def run(ctx):
     return T.result(
         "scheme x host form (name, upper-case name, IPv4, two IPv6 literals) x port {default, 80, 443, 8080, 1, 65535, 81, 444} x "
         "path x query, sampled to 400 (20000) URLs, each with one of 16 option sets (host, origin incl. None, suppress_origin, "
-        "subprotocols, cookie, header list/dict with None values and empty, connection, combinations); request parsed by the "
+        "subprotocols, cookie, header list/dict with None values and empty, header dicts that supply Sec-WebSocket-Key / -Version themselves, connection, combinations); request parsed by the "
         "extracted Spec.parse_request and every header compared with what URL and options call for; Host per Spec.host_header; "
         "the websockets package's server as a third opinion on a fifth of the cases; 50 successive connections for key "
         "freshness; observation line compared with the extracted model",
